@@ -308,9 +308,10 @@ def lineOut (c : LineCfg) (indent2 : Nat) : Outcome Nat :=
 
 mutual
 /-- printable expression as `EXPRstring` sees it: `fixed` = literal text and formatted numbers this node adds,
-`name` = length of the symbol / string / binary text it copies -/
+`name` = length of the symbol / string / binary text it copies, `extra` = bytes written in addition to that text
+because of it (an apostrophe doubled, …) -/
 inductive PExpr where
-  | leaf (fixed name : Nat)
+  | leaf (fixed name extra : Nat)
   | query (fixed name : Nat) (agg body : PExpr)
   | funcall (fixed name : Nat) (args : PArgs)
   | op (fixed : Nat) (a b : PExpr)
@@ -322,7 +323,7 @@ end
 
 mutual
 def PExpr.strLen : PExpr → Nat
-  | .leaf f n => f + n
+  | .leaf f n x => f + n + x
   | .query f n a b => f + n + a.strLen + b.strLen
   | .funcall f n as => f + n + as.strLen
   | .op f a b => f + a.strLen + b.strLen
@@ -333,29 +334,30 @@ def PArgs.strLen : PArgs → Nat
 end
 
 mutual
-/-- `EXPRstring_bound` with its two constants -/
-def PExpr.bound (base per : Nat) : PExpr → Nat
-  | .leaf _ n => base + n
-  | .query _ n a b => base + n + a.bound base per + b.bound base per
-  | .funcall _ n as => base + n + as.bound base per
-  | .op _ a b => base + a.bound base per + b.bound base per
-  | .list _ as => base + as.bound base per
-def PArgs.bound (base per : Nat) : PArgs → Nat
+/-- `EXPRstring_bound` with its constants: `base` per node, `per` per list element, `kf` times the length of a leaf's text -/
+def PExpr.bound (base per kf : Nat) : PExpr → Nat
+  | .leaf _ n _ => base + kf * n
+  | .query _ n a b => base + n + a.bound base per kf + b.bound base per kf
+  | .funcall _ n as => base + n + as.bound base per kf
+  | .op _ a b => base + a.bound base per kf + b.bound base per kf
+  | .list _ as => base + as.bound base per kf
+def PArgs.bound (base per kf : Nat) : PArgs → Nat
   | .nil => 0
-  | .cons _ e r => per + e.bound base per + r.bound base per
+  | .cons _ e r => per + e.bound base per kf + r.bound base per kf
 end
 
 mutual
-/-- every node's fixed text is at most `fmax`, every separator at most `smax` (regenerated from EXPRstring) -/
-def PExpr.wf (fmax smax : Nat) : PExpr → Prop
-  | .leaf f _ => f ≤ fmax
-  | .query f _ a b => f ≤ fmax ∧ a.wf fmax smax ∧ b.wf fmax smax
-  | .funcall f _ as => f ≤ fmax ∧ as.wf fmax smax
-  | .op f a b => f ≤ fmax ∧ a.wf fmax smax ∧ b.wf fmax smax
-  | .list f as => f ≤ fmax ∧ as.wf fmax smax
-def PArgs.wf (fmax smax : Nat) : PArgs → Prop
+/-- every node's fixed text is at most `fmax`, every separator at most `smax`, and a leaf's text is written in at most
+`wfac` bytes per character (all regenerated from EXPRstring) -/
+def PExpr.wf (fmax smax wfac : Nat) : PExpr → Prop
+  | .leaf f n x => f ≤ fmax ∧ n + x ≤ wfac * n
+  | .query f _ a b => f ≤ fmax ∧ a.wf fmax smax wfac ∧ b.wf fmax smax wfac
+  | .funcall f _ as => f ≤ fmax ∧ as.wf fmax smax wfac
+  | .op f a b => f ≤ fmax ∧ a.wf fmax smax wfac ∧ b.wf fmax smax wfac
+  | .list f as => f ≤ fmax ∧ as.wf fmax smax wfac
+def PArgs.wf (fmax smax wfac : Nat) : PArgs → Prop
   | .nil => True
-  | .cons s e r => s ≤ smax ∧ e.wf fmax smax ∧ r.wf fmax smax
+  | .cons s e r => s ≤ smax ∧ e.wf fmax smax wfac ∧ r.wf fmax smax wfac
 end
 
 structure ExprLenCfg where
@@ -364,11 +366,12 @@ structure ExprLenCfg where
   base : Nat
   perArg : Nat
   needExtra : Nat
+  nameFactor : Nat    -- `n += nameFactor * strlen( e->symbol.name )` for string / identifier / binary leaves
   deriving Repr
 
 /-- `EXPRstring( buffer, e )` stores `strLen e + 1` bytes -/
 def exprLenOut (c : ExprLenCfg) (e : PExpr) : Outcome Nat :=
-  let need := e.bound c.base c.perArg + c.needExtra
+  let need := e.bound c.base c.perArg c.nameFactor + c.needExtra
   let room := if c.sized && decide (c.cap < need) then need else c.cap
   if e.strLen + 1 ≤ room then .ok e.strLen else .overflow room
 
